@@ -15,6 +15,7 @@ import (
 	"github.com/database64128/shadowsocks-go/conn"
 	"github.com/database64128/shadowsocks-go/router"
 	"github.com/database64128/shadowsocks-go/stats"
+	"github.com/database64128/shadowsocks-go/verifhook"
 	"github.com/database64128/shadowsocks-go/zerocopy"
 	"go.uber.org/zap"
 )
@@ -323,6 +324,7 @@ func (s *UDPSessionRelay) recvFromServerConnGeneric(ctx context.Context, lnc *ud
 			natConnSendCh := make(chan *sessionQueuedPacket, lnc.sendChannelCapacity)
 			entry.natConnSendCh = natConnSendCh
 			s.table[csid] = entry
+			verifhook.At("relay.recv.afterInsert", s, csid)
 
 			s.wg.Go(func() {
 				var sendChClean bool
@@ -332,6 +334,7 @@ func (s *UDPSessionRelay) recvFromServerConnGeneric(ctx context.Context, lnc *ud
 					close(natConnSendCh)
 					delete(s.table, csid)
 					s.mu.Unlock()
+					verifhook.At("relay.session.cleanup", s, csid)
 
 					if !sendChClean {
 						for queuedPacket := range natConnSendCh {
@@ -414,6 +417,7 @@ func (s *UDPSessionRelay) recvFromServerConnGeneric(ctx context.Context, lnc *ud
 					return
 				}
 
+				verifhook.At("relay.init.beforeSwap", s, csid)
 				oldState := entry.state.Swap(natConn)
 				if oldState != nil {
 					natConn.Close()
@@ -537,6 +541,7 @@ func (s *UDPSessionRelay) relayServerConnToNatConnGeneric(ctx context.Context, u
 			)
 		}
 
+		verifhook.At("relay.uplink.afterSend", s, uplink.csid)
 		err = uplink.natConn.SetReadDeadline(time.Now().Add(uplink.natTimeout))
 		if err != nil {
 			uplink.logger.Error("Failed to set read deadline on natConn",
@@ -548,6 +553,7 @@ func (s *UDPSessionRelay) relayServerConnToNatConnGeneric(ctx context.Context, u
 				zap.Error(err),
 			)
 		}
+		verifhook.At("relay.uplink.afterRearm", s, uplink.csid)
 
 		s.putQueuedPacket(queuedPacket)
 		packetsSent++
@@ -616,6 +622,7 @@ func (s *UDPSessionRelay) relayNatConnToServerConnGeneric(downlink sessionDownli
 			continue
 		}
 
+		verifhook.At("relay.downlink.afterRecv", s, downlink.csid)
 		payloadSourceAddrPort, payloadStart, payloadLength, err := downlink.natConnUnpacker.UnpackInPlace(packetBuf, packetSourceAddrPort, headroom.Front, n)
 		if err != nil {
 			downlink.logger.Warn("Failed to unpack packet",
@@ -703,7 +710,9 @@ func (s *UDPSessionRelay) Stop() error {
 
 	// Wait for serverConn receive goroutines to exit,
 	// so there won't be any new sessions added to the table.
+	verifhook.At("relay.stop.afterServerDeadline", s)
 	s.mwg.Wait()
+	verifhook.At("relay.stop.afterWaitRecv", s)
 
 	s.mu.Lock()
 	for csid, entry := range s.table {
@@ -723,7 +732,9 @@ func (s *UDPSessionRelay) Stop() error {
 
 	// Wait for all relay goroutines to exit before closing serverConn,
 	// so in-flight packets can be written out.
+	verifhook.At("relay.stop.beforeWaitAll", s)
 	s.wg.Wait()
+	verifhook.At("relay.stop.afterWaitAll", s)
 
 	for i := range s.listeners {
 		lnc := &s.listeners[i]
